@@ -39,3 +39,49 @@ package main
 //@   call fmt.Errorf#3 requires arg0 == "%q: line %d is too long" && len(arg1) == 2 && unboxstr(arg1[0]) == name && unboxint(arg1[1]) == n   [C18]
 //@   ensures#all err == nil ==> len(recs) + ($warnings - old($warnings)) == keycount(id(scanner), scanner.$ln) && len(recs) >= 1   [C18]
 //@   ensures#nil err != nil ==> recs == nil                                                                        [C14 C18]
+
+// ---- C15: exit status 0 iff the whole result was delivered -------------
+
+//@ func exit(code)
+//@   noreturn                                                                                                        [C15]
+//@   maypanic
+
+//@ func errorf(format, v)
+//@   noreturn                                                                                                        [C15]
+
+//@ func errorWithHint(error, hints)
+//@   loop 1 invariant true
+//@   noreturn                                                                                                        [C15]
+
+//@ func decrypt(identities, in, out)
+//@   requires in != nil && out != nil && (forall j in 0..len(identities) :: identities[j] != nil)
+//@   call Write#1 requires calls("age.Decrypt",1) == old(calls("age.Decrypt",1)) + 1 && lasterr("age.Decrypt",1) == nil && same(arg0, out)       [C15]
+//@   call io.Copy#1 requires calls("age.Decrypt",1) == old(calls("age.Decrypt",1)) + 1 && lasterr("age.Decrypt",1) == nil && same(arg0, out)     [C15]
+//@   ensures#delivered calls("io.Copy",1) == old(calls("io.Copy",1)) + 1 && lasterr("io.Copy",1) == nil && lasterr("Write",1) == nil          [C15]
+//@   ensures#opened out.$wn > old(out.$wn)                                                                          [C15]
+
+//@ func encrypt(recipients, in, out, withArmor)
+//@   requires in != nil && out != nil && (forall j in 0..len(recipients) :: recipients[j] != nil)
+//@   ensures#delivered calls("age.Encrypt",1) == old(calls("age.Encrypt",1)) + 1 && lasterr("age.Encrypt",1) == nil && calls("io.Copy",1) == old(calls("io.Copy",1)) + 1 && lasterr("io.Copy",1) == nil && calls("Close",1) == old(calls("Close",1)) + 1 && lasterr("Close",1) == nil   [C15]
+//@   ensures#armorclosed withArmor ==> calls("$1:Close",1) == old(calls("$1:Close",1)) + 1 && lasterr("$1:Close",1) == nil                     [C15]
+
+//@ func newLazyOpener(name) (w)
+//@   call os.Create#0 requires false                                                                                [C15]
+//@   call os.OpenFile#0 requires false                                                                              [C15]
+//@   ensures#lazy w != nil && typeis(w, "*filippo.io/age/cmd/age.lazyOpener") && cast(w, "filippo.io/age/cmd/age.lazyOpener").f == nil && cast(w, "filippo.io/age/cmd/age.lazyOpener").err == nil && cast(w, "filippo.io/age/cmd/age.lazyOpener").name == name   [C15]
+
+//@ func (*lazyOpener).Write(l, p) (n, err)
+//@   requires l != nil
+//@   call os.Create#1 requires old(l.f) == nil && old(l.err) == nil && arg0 == l.name                               [C15]
+//@   ensures#sticky old(l.err) != nil ==> err == old(l.err) && n == 0                                               [C15]
+//@   ensures#once old(l.f) != nil ==> l.f == old(l.f)                                                               [C15]
+//@   ensures#openerr l.err != nil ==> err == l.err && n == 0                                                        [C15]
+//@   ensures#written l.err == nil ==> l.f != nil && calls("Write",1) == old(calls("Write",1)) + 1 && err == lasterr("Write",1)   [C15]
+
+//@ func (*lazyOpener).Close(l) (err)
+//@   requires l != nil
+//@   ensures#unopened l.f == nil ==> err == nil                                                                     [C15]
+//@   ensures#closeerr l.f != nil ==> calls("Close",1) == old(calls("Close",1)) + 1 && err == lasterr("Close",1)     [C15]
+
+//@ func absPath(name) (abs)
+//@   ensures#canon lasterr("filepath.Abs",1) == nil ==> abs == abspath(name)                                        [C15]
